@@ -39,7 +39,7 @@ type Profile struct {
 
 func baseWeights() map[string]int {
 	return map[string]int{"aol": 30, "aolAdv": 8, "did": 18, "didAdv": 8, "pnft": 22, "pnftAdv": 8, "bank": 4, "burn": 3, "vest": 1,
-		"authz": 5, "gov": 1, "boundary": 4, "hostile": 3, "tamper": 4, "replay": 4, "multi": 5, "hquery": 2, "rollback": 4}
+		"authz": 5, "gov": 1, "boundary": 4, "multiDefect": 2, "hostile": 3, "tamper": 4, "replay": 4, "multi": 5, "hquery": 2, "rollback": 4}
 }
 
 func profileFor(prop, tier string, rng *PRNG) *Profile {
@@ -109,6 +109,7 @@ func profileFor(prop, tier string, rng *PRNG) *Profile {
 	case "C09":
 		boost("rollback", 3)
 		boost("gov", 4)
+		boost("multiDefect", 6)
 		p.Replicas = [2]int{3, 4}
 		p.PCrash, p.PLag, p.PReconfig = 0.1, 0.1, 0.08
 		p.MidRate = 0.3
@@ -116,6 +117,8 @@ func profileFor(prop, tier string, rng *PRNG) *Profile {
 	case "C10":
 		boost("rollback", 3)
 		boost("gov", 8)
+		boost("vest", 6) // coins that unlock with time at the burn address: what a node does about them must not depend on when it started
+		p.PJump = 0.3
 		p.PCrash = 0.3
 		p.CrashEnum, p.CrashSamp = 2, 10
 		if tier == "thorough" {
@@ -144,12 +147,14 @@ func profileFor(prop, tier string, rng *PRNG) *Profile {
 		p.PAmino = 0.3
 	case "C16":
 		boost("boundary", 25)
+		boost("multiDefect", 6)
 		boost("didAdv", 3)
 		boost("did", 2)
 		boost("authz", 2)
 		boost("multi", 2)
 	case "C17":
 		boost("hostile", 15)
+		boost("multiDefect", 4)
 		boost("hquery", 15)
 		boost("boundary", 4)
 	case "C19":
@@ -186,7 +191,7 @@ func profileFor(prop, tier string, rng *PRNG) *Profile {
 	if rng.Chance(0.3) {
 		p.PRestart0 = 0
 	}
-	for _, k := range []string{"bank", "burn", "vest", "authz", "hquery", "hostile", "boundary"} {
+	for _, k := range []string{"bank", "burn", "vest", "authz", "hquery", "hostile", "boundary", "multiDefect", "gov"} {
 		if rng.Chance(0.25) && p.W[k] < 40 {
 			p.W[k] = 0
 		}
@@ -221,6 +226,8 @@ type Gen struct {
 	boundaryPos int
 	hostilePos  int
 	whale       bool
+	sole        bool
+	soleLeft    int
 	nProposals  int
 	hasAtom     bool
 }
@@ -267,6 +274,13 @@ func GenerateScript(seed uint64, prop, tier string, env *Env) *Script {
 	if rng.Chance(0.5) || prop == "C07" || prop == "C17" {
 		s.Config.Genesis.ExtraDenoms = append(s.Config.Genesis.ExtraDenoms, WhaleDenom)
 		g.whale = true
+	}
+	if rng.Chance(0.4) || prop == "C07" || prop == "C17" {
+		s.Config.Genesis.ExtraDenoms = append(s.Config.Genesis.ExtraDenoms, SoleDenom)
+		g.sole = true
+	}
+	if rng.Chance(0.5) {
+		s.Config.LegacyVersionMap = true
 	}
 	if rng.Chance(0.3) {
 		// chains that do not start at height 1: heights around encoding and arithmetic boundaries
@@ -556,6 +570,8 @@ func (g *Gen) family(f string) {
 		g.famPnft()
 	case "gov":
 		g.famGov()
+	case "multiDefect":
+		g.famMultiDefect()
 	case "pnftAdv":
 		g.famPnftAdv()
 	case "bank":
@@ -932,6 +948,9 @@ func (g *Gen) famDidAdv() {
 		return
 	}
 	k, mid := keys[0], mids[0]
+	if k < SharedKeys && r.Chance(0.5) {
+		from = g.addr(k) // relayed by the account whose key is the DID's authentication key
+	}
 	other := (k + 5) % NumDidKeys
 	upd := func(p *ProofSpec, doc *DocSpec) {
 		g.tx(MsgSpec{T: "did.Update", F: map[string]string{"did": did, "from": from}, Doc: doc, Proof: p})
@@ -1206,7 +1225,7 @@ func (g *Gen) famPnftAdv() {
 	d := dens[r.Intn(len(dens))]
 	owner := g.plan.Denoms[d].Owner
 	stranger := g.addr(6 + r.Intn(3))
-	switch r.Intn(12) {
+	switch r.Intn(13) {
 	case 0: // mint by a non-owner (names itself)
 		g.tx(M("pnft.Mint", "denom", d, "id", g.idFrom(tokenPool, false), "name", "x", "creator", stranger))
 	case 1: // hand over, then old and new owner try to mint
@@ -1262,6 +1281,21 @@ func (g *Gen) famPnftAdv() {
 		dn := g.idFrom(denomPool, true)
 		g.tx(M("pnft.CreateDenom", "id", dn, "name", "n", "symbol", "s", "creator", owner))
 		g.tx(M("pnft.Mint", "denom", dn, "id", g.idFrom(tokenPool, true), "name", "n", "creator", owner))
+	case 12: // an EMPTY denom whose id is a prefix of another denom's id is deleted: the longer one and its tokens stay
+		p := []string{"art", "pfx", "d", "dn"}[r.Intn(4)]
+		long := p + []string{"2", "\x00x", "/x", p}[r.Intn(4)]
+		if hasNUL(long) {
+			long = p + "0"
+		}
+		g.tx(M("pnft.CreateDenom", "id", p, "name", "n", "symbol", "s", "creator", owner))
+		g.tx(M("pnft.CreateDenom", "id", long, "name", "n", "symbol", "s", "creator", owner))
+		g.tx(M("pnft.Mint", "denom", long, "id", "t1", "name", "n", "creator", owner))
+		if r.Chance(0.5) { // the short one was used once and emptied again
+			g.tx(M("pnft.Mint", "denom", p, "id", "t1", "name", "n", "creator", owner))
+			g.tx(M("pnft.Burn", "denom", p, "id", "t1", "burner", owner))
+		}
+		g.tx(M("pnft.DeleteDenom", "id", p, "remover", owner))
+		g.tx(M("pnft.Transfer", "denom", long, "id", "t1", "sender", owner, "receiver", stranger))
 	case 11: // two tokens whose (denom id, token id) pairs join to the same text under a separator
 		sep := []string{"/", "/", "/", "/", ":", "|", ".", "-", "_", " ", "#", ","}[r.Intn(12)]
 		a, b, c := []string{"jn", "hospital", "d"}[r.Intn(3)], []string{"ward7", "w", "0"}[r.Intn(3)], []string{"bed12", "b", "1"}[r.Intn(3)]
@@ -1338,6 +1372,23 @@ func (g *Gen) famGov() {
 
 func (g *Gen) famBurn() {
 	r := g.rng
+	if g.sole && g.soleLeft == 0 {
+		g.soleLeft = SoleSupply
+	}
+	if g.sole && g.soleLeft > 0 && r.Chance(0.3) {
+		// the whole remaining supply of a denomination goes to the burn address (in one or two deposits): afterwards
+		// its total supply is exactly zero
+		amt := g.soleLeft
+		if r.Chance(0.5) && amt > 1 {
+			amt = r.Range(1, amt-1)
+		}
+		g.soleLeft -= amt
+		if g.soleLeft == 0 {
+			g.soleLeft = -1
+		}
+		g.tx(MsgSpec{T: "bank.Send", F: map[string]string{"from": g.addr(SoleHolder), "to": BurnAddress}, Coins: []CoinSpec{{Denom: SoleDenom, Amount: fmt.Sprint(amt)}}})
+		return
+	}
 	switch r.Intn(4) {
 	case 3: // coins for the module account that does the burning, before (or after) coins for the burn address
 		g.tx(MsgSpec{T: "bank.Send", F: map[string]string{"from": g.addr(r.Intn(NumAccounts)), "to": sdk.AccAddress(authtypes.NewModuleAddress("burn")).String()}, Coins: g.someCoins()})
